@@ -437,7 +437,10 @@ func main() {
 								next = env.NewSrc(append([]byte{}, data[before:]...))
 							}
 							cr.Reset(next, key)
+							first := make([]byte, 3)
+							io.ReadFull(cr, first)
 							got, err := io.ReadAll(cr)
+							got = append(first, got...)
 							if err != nil || !bytes.Equal(got, want) {
 								return explore.Failf("CipherReader-after-Reset", "err=%v got %x want %x", err, got, want)
 							}
@@ -449,7 +452,9 @@ func main() {
 							data := fill(before+11, 6)
 							d := env.NewDst()
 							cw := wsutil.NewCipherWriter(d, k1)
-							cw.Write(data[:before])
+							// in two calls, so that a write has also started at an unaligned offset
+							cw.Write(data[:before/2])
+							cw.Write(data[before/2 : before])
 							key := k1
 							if !sameKey {
 								key = k2
@@ -460,8 +465,10 @@ func main() {
 							}
 							mark := len(d2.Bytes())
 							cw.Reset(d2, key)
-							if _, err := cw.Write(data[before:]); err != nil {
-								return explore.Failf("CipherWriter-after-Reset-error", "%v", err)
+							for _, piece := range [][]byte{data[before : before+3], data[before+3 : before+5], data[before+5:]} {
+								if _, err := cw.Write(piece); err != nil {
+									return explore.Failf("CipherWriter-after-Reset-error", "%v", err)
+								}
 							}
 							if got, want := d2.Bytes()[mark:], refmodel.XOR(data[before:], key, 0); !bytes.Equal(got, want) {
 								return explore.Failf("CipherWriter-after-Reset", "got %x want %x", got, want)
